@@ -22,10 +22,32 @@ System "ADWINAccuracy"  (twin oracle)
     ADWINAccuracy(**p) fed (y_true, y_pred) vs ADWIN(**p) fed 1{y_true == y_pred},
     p != defaults, every binary agreement sequence up to the bound, all
     observables bit-for-bit.
+
+Round-3 family extensions (EXTENDING.md) -- every family below is a set of *additional*
+tasks with its own label ("ADWIN|<family>|...") and its own counters ``fam_<family>_steps``
+/ ``fam_<family>_drifts``:
+      val / valdev   value alphabets far from {0,1,5}: negative and fractional non-dyadic
+                     values, mixed signs, levels 1e6 / +-3e7 with small spread, scale 1e-6,
+                     values inside [0,1] (dfs and L=96 staircases with k <= 1);
+      par / pardev   legal-but-unusual parameters: delta 1e-9, max_buckets 64 (no compression
+                     ever), new_sample_thresh / window_size_thresh / subwindow_size_thresh
+                     larger than the whole history, subwindow_size_thresh 0 and
+                     > window_size_thresh, both bounds;
+      feed           the single observation arrives as python/numpy scalar, 1-element list,
+                     1-D / 2-D array, Series, one-cell DataFrame; float32-, int64-, int32- and
+                     python-int-typed; mixed int/float; narrow integer dtypes (uint8/int8/int16);
+      long           default parameters, L = 192, k <= 1 (the default period 32 and the default
+                     minimum window sizes are really passed);
+    ADWINAccuracy: twins with every unusual parameter forwarded, labels in several containers,
+    and a default-parameter twin on L = 192 agreement histories.
+Tolerances of the new families scale with the conditioning of their data (see ``_tol``).
 """
 import itertools
 import math
 import os
+
+import numpy as np
+import pandas as pd
 
 from menelaus.change_detection import ADWIN
 from menelaus.concept_drift import ADWINAccuracy
@@ -175,14 +197,143 @@ DEV_K2 = {
 ABS_TOL = 1e-11
 
 
-def _diff(exp, obs):
+def _diff(exp, obs, tol=None):
     bad = []
     for k, v in exp.items():
         if k == "W_internal" and obs.get(k) is None:
             continue  # private field not available: nothing to sharpen
-        if k not in obs or not close(v, obs[k], abs_=ABS_TOL if k in ("mean", "variance") else 1e-12):
+        if tol is not None and k in ("mean", "variance"):
+            rel, abs_ = tol[k]
+            ok = k in obs and close(v, obs[k], rel=rel, abs_=abs_)
+        else:
+            ok = k in obs and close(v, obs[k], abs_=ABS_TOL if k in ("mean", "variance") else 1e-12)
+        if not ok:
             bad.append(k)
     return bad
+
+
+# ------------------------------------------------------------------------------------------
+# round-3 families: value alphabets, containers / dtypes, tolerances
+# ------------------------------------------------------------------------------------------
+# Three symbols each, playing the roles (low, middle, high) of {0, 1, 5}.  Events are the numbers
+# themselves (JSON round-trips a float64 exactly); the model gets exactly the number the detector sees.
+VALUE_ALPHABETS = {
+    "neg": [-0.1, -0.9, -5.3],  # negative, non-dyadic
+    "frac": [0.1, 0.7, 5.3],  # fractional, non-dyadic
+    "mix": [-2.6, 0.3, 2.7],  # mixed signs (sums may nearly cancel)
+    "unit": [0.05, 0.5, 0.95],  # inside [0, 1], the range the bound is written for
+    "lvl6": [1000000.1, 1000000.9, 1000005.3],  # level 1e6, spread ~5, non-dyadic
+    "lvl7": [30000000.0, 30000001.0, 30000005.0],  # level 3e7, integral
+    "nlvl7": [-29999999.7, -30000000.4, -30000005.1],  # level -3e7, non-dyadic
+    "tiny": [1e-06, 3e-06, 7.5e-06],  # scale 1e-6 (the additive term of eps_cut dwarfs it: statistics only)
+    "dy": [0.5, -2.25, 5.75],  # dyadic, exactly representable in float32
+    "i3": [-3, 0, 4],  # integers of mixed sign
+    "ilvl7": [30000000, 30000001, 30000005],  # integer-typed level 3e7 (int32 sums of 72+ of them pass 2^31)
+    "imix": [0, 1, 2.5],  # integral values arrive int-typed, the fractional one as a float
+    "u8": [100, 101, 105],  # uint8-typed: three samples sum past 255
+    "i8": [-100, -99, -95],  # int8-typed: two samples sum below -128
+    "i16": [10000, 10001, 10005],  # int16-typed: four samples sum past 32767
+}
+ALPHABETS.update(VALUE_ALPHABETS)
+
+EPS64 = 2.0 ** -52
+EPS32 = 2.0 ** -23
+
+# how the single observation is handed to update(); the kind used at position pos is feed[pos % len(feed)]
+FEEDS = {
+    # same float64 number in every container the validation accepts
+    "cont": ["l1", "df", "a1", "l2", "a2", "np64", "ser", "f"],
+    "df": ["df"],  # one-cell DataFrame (labelled column, non-default row label) from the first call on
+    # float32-typed all the way (scalars, 1-D / 2-D arrays, DataFrame column)
+    "f32": ["f32", "a1f32", "a2f32", "dff32"],
+    # first observation float64, float32 afterwards (the running sums are then float64: tight tolerance)
+    "f32after64": ["f"] + ["f32", "a1f32", "a2f32", "dff32"] * 64,
+    "int": ["i", "i64", "a1i64", "a2i32", "dfi", "l1i"],  # integer-typed, 64 and 32 bit, python int
+    "i32": ["a2i32", "i32"],  # int32 only
+    "auto": ["auto"],  # int-typed when the value is integral, float otherwise
+    "u8": ["a1u8", "u8"],
+    "i8": ["a2i8", "i8"],
+    "i16": ["a1i16", "i16"],
+}
+_NARROW = ("u8", "i8", "i16")
+_DTYPES = {"f32": np.float32, "i64": np.int64, "i32": np.int32, "u8": np.uint8, "i8": np.int8, "i16": np.int16}
+
+
+def _wrap(kind, v):
+    """(object handed to update(), exact number it stands for)."""
+    if kind == "auto":
+        kind = "i" if float(v).is_integer() else "f"
+    if kind == "f":
+        return float(v), float(v)
+    if kind == "np64":
+        return np.float64(v), float(v)
+    if kind == "l1":
+        return [float(v)], float(v)
+    if kind == "l2":
+        return [[float(v)]], float(v)
+    if kind == "a1":
+        return np.array([float(v)]), float(v)
+    if kind == "a2":
+        return np.array([[float(v)]]), float(v)
+    if kind == "ser":
+        return pd.Series([float(v)]), float(v)
+    if kind == "df":
+        return pd.DataFrame({"x": [float(v)]}, index=[7]), float(v)
+    if kind == "i":
+        return int(v), int(v)
+    if kind == "l1i":
+        return [int(v)], int(v)
+    if kind == "dfi":
+        return pd.DataFrame({"x": [int(v)]}), int(v)
+    shape, dt = None, kind
+    if kind.startswith("a1"):
+        shape, dt = 1, kind[2:]
+    elif kind.startswith("a2"):
+        shape, dt = 2, kind[2:]
+    elif kind.startswith("df"):
+        shape, dt = "df", kind[2:]
+    t = _DTYPES[dt]
+    x = t(v)
+    seen = float(x) if dt == "f32" else int(x)
+    if dt != "f32" and seen != v:
+        raise ValueError("value %r does not fit dtype %s" % (v, dt))
+    if shape == 1:
+        return np.array([x], dtype=t), seen
+    if shape == 2:
+        return np.array([[x]], dtype=t), seen
+    if shape == "df":
+        return pd.DataFrame({"x": np.array([x], dtype=t)}), seen
+    return x, seen
+
+
+def _tol(alpha, L, feed=None):
+    """Tolerances of a family whose data are ALPHABETS[alpha], histories no longer than L.
+
+    S = max|x| (scale), R = max - min (spread).  A *correct* float64 implementation carries
+      * on a running sum of <= L terms an error <= L * eps * L*S, hence on the mean <= L*eps*S  (L=200: 4.4e-14 S);
+      * on a deviation (x - mean) the same absolute error d = L*eps*S, hence on a mean of squared deviations
+        <= 2*R*d = 2*L*eps*S*R (bucket merges / removals add terms of the same form);
+      * on a difference of two sub-window means the error d, i.e. relative to a difference of the size of the
+        spread:  L*eps*S/R -- the conditioning of the epsilon-cut decision.
+    The tolerances leave a factor ~20 over these worst-case bounds (measured errors are another 10-100x smaller):
+      mean      abs 1e-12*S        variance  abs 1e-12*S*R  (+ the framework's relative 1e-9)
+      decision  relative margin <= max(1e-9, 1e-12*S/R) is numerically undecidable (1e-12 ~ 20*L*eps).
+    The mean is additionally held to relative 1e-12 (not 1e-9: at level 3e7 that would be 0.03 absolute).
+    float32-typed streams: the detector's running sums are float32 until the first cut (numpy scalar
+    arithmetic keeps the dtype of its input), so eps is 2^-23: relative 4*L*eps32 on mean and variance
+    (data are small dyadic numbers, conditioning 1), decisions within 1e-4 undecidable.
+    """
+    vals = [float(v) for v in ALPHABETS[alpha]]
+    S = max(abs(v) for v in vals)
+    R = max(vals) - min(vals)
+    if feed == "f32":
+        rel = 4 * L * EPS32
+        return {"mean": [rel, rel * S], "variance": [rel, rel * S * R], "tie": 1e-4}
+    return {
+        "mean": [1e-12, 1e-12 * S],
+        "variance": [1e-9, 1e-12 * S * R],
+        "tie": max(1e-9, 1e-12 * S / R),
+    }
 
 
 class AdwinSystem(System):
@@ -197,18 +348,27 @@ class AdwinSystem(System):
 
     def step(self, cfg, state, ev, pos, ctx):
         det = state["det"]
+        feed = cfg.get("feed")
+        tol = cfg.get("tol")
+        fam = cfg.get("fam")
+        narrow = feed in _NARROW
+        if feed:
+            kinds = FEEDS[feed]
+            x_in, x_seen = _wrap(kinds[pos % len(kinds)], ev)
+        else:
+            x_in = x_seen = ev
         try:
-            det.update(ev)
+            det.update(x_in)
             obs = stream_obs(det)
             obs["mean"] = fl(det.mean())
             obs["variance"] = fl(det.variance())
         except Exception as e:  # ADWIN never raises on a valid scalar
             raise Violation(
                 "ADWIN-raises",
-                "ADWIN.update(%r) raised %s: %s after %d samples" % (ev, type(e).__name__, e, pos + 1),
+                "ADWIN.update(%r) raised %s: %s after %d samples" % (x_in, type(e).__name__, e, pos + 1),
                 expected="no exception",
                 observed=repr(e),
-                sig="ADWIN-raises:%s" % type(e).__name__,
+                sig="ADWIN-raises:%s%s" % (type(e).__name__, ":narrow-int-dtype" if narrow else ""),
             )
         r = obs.get("recs")
         if obs["state"] == "drift":
@@ -223,26 +383,42 @@ class AdwinSystem(System):
 
         model, exp, ok = lockstep(
             state["model"],
-            lambda m, D: m.step(ev, D),
-            lambda e: not _diff(e, obs),
+            lambda m, D: m.step(x_seen, D),
+            lambda e: not _diff(e, obs, tol),
             stats=ctx.stats,
+            **({"tie": tol["tie"]} if tol else {}),
         )
         state["model"] = model
         d = model.diag
         if not ok:
-            bad = _diff(exp, obs)
+            bad = _diff(exp, obs, tol)
             sig = "ADWIN-spec"
-            if cfg["params"]["max_buckets"] == 1 and d.get("gap_cut"):
+            if cfg["params"].get("max_buckets") == 1 and d.get("gap_cut"):
                 sig = "ADWIN-spec:max_buckets=1:cut-after-emptied-row"
+            if narrow:
+                # running sums kept in the (narrow integer) dtype of the input wrap around
+                sig = "ADWIN-spec:narrow-int-dtype"
             raise Violation(
                 "ADWIN-spec",
-                "ADWIN disagrees with its specification on %s after %d samples (params %s)"
-                % (bad, pos + 1, cfg["params"]),
+                "ADWIN disagrees with its specification on %s after %d samples (params %s%s)"
+                % (bad, pos + 1, cfg["params"], (", observations fed as %s" % FEEDS[feed][:6]) if feed else ""),
                 expected=exp,
                 observed=obs,
                 sig=sig,
             )
 
+        if fam:
+            ctx.count("fam_%s_steps" % fam)
+            if exp["state"] == "drift":
+                ctx.count("fam_%s_drifts" % fam)
+            if tol:
+                # measured error relative to the tolerance granted (max over the run would need a max-counter;
+                # the count of steps that used more than 5% of the tolerance is reported instead)
+                for k in ("mean", "variance"):
+                    rel, abs_ = tol[k]
+                    lim = max(abs_, rel * max(abs(exp[k]), abs(obs[k])))
+                    if lim > 0 and abs(exp[k] - obs[k]) > 0.05 * lim:
+                        ctx.count("tol_%s_used_over_5pct" % k)
         # ---- anti-vacuity bookkeeping (model diagnostics, valid because the step agreed) ----
         if exp["state"] == "drift":
             ctx.mark("drift_transitions")
@@ -253,7 +429,7 @@ class AdwinSystem(System):
                 ctx.count("cuts_dropping_bucket_ge8")
             if len(dropped) >= 2:
                 ctx.count("cascaded_cuts")
-            if cfg["params"]["max_buckets"] == 1:
+            if cfg["params"].get("max_buckets") == 1:
                 ctx.count("max_buckets1_shrinks")
             if d.get("gap_cut"):
                 ctx.count("cuts_across_missing_bucket_size")
@@ -288,6 +464,32 @@ def _bits(o):
     return out
 
 
+YFEEDS = {
+    # python int, numpy ints, 1-element list / 1-D / 2-D arrays, Series, numpy bool, float-typed labels
+    "ycont": ["i", "l1", "a1", "a2", "ser", "i64", "f", "a1f32"],
+}
+
+
+def _ywrap(kind, y):
+    if kind == "i":
+        return int(y)
+    if kind == "i64":
+        return np.int64(y)
+    if kind == "f":
+        return float(y)
+    if kind == "l1":
+        return [int(y)]
+    if kind == "a1":
+        return np.array([int(y)])
+    if kind == "a2":
+        return np.array([[int(y)]])
+    if kind == "a1f32":
+        return np.array([y], dtype=np.float32)
+    if kind == "ser":
+        return pd.Series([int(y)])
+    raise KeyError(kind)
+
+
 class AccTwinSystem(System):
     name = "ADWINAccuracy"
 
@@ -309,6 +511,14 @@ class AccTwinSystem(System):
         # ev = 1: the prediction agrees with the label.  Both label values occur.
         y_true = pos % 2
         y_pred = y_true if ev else 1 - y_true
+        if cfg.get("yfeed"):
+            # the two labels arrive in the containers / dtypes _validate_y accepts (one observation each)
+            kinds = YFEEDS[cfg["yfeed"]]
+            y_true_in = _ywrap(kinds[pos % len(kinds)], y_true)
+            y_pred_in = _ywrap(kinds[(pos // len(kinds) + pos) % len(kinds)], y_pred)
+        else:
+            y_true_in, y_pred_in = y_true, y_pred
+        fam = cfg.get("fam")
         ref = state["ref"]
         try:
             ref.update(int(y_true == y_pred))
@@ -323,7 +533,7 @@ class AccTwinSystem(System):
                 sig="ADWIN-raises:%s" % type(e).__name__,
             )
         try:
-            state["acc"].update(y_true=y_true, y_pred=y_pred)
+            state["acc"].update(y_true=y_true_in, y_pred=y_pred_in)
             obs = self._observe(state["acc"])
         except Exception as e:
             raise Violation(
@@ -348,6 +558,10 @@ class AccTwinSystem(System):
         ctx.count("acc_twin_steps")
         if obs["state"] == "drift":
             ctx.mark("acc_twin_drifts")
+        if fam:
+            ctx.count("fam_%s_steps" % fam)
+            if obs["state"] == "drift":
+                ctx.count("fam_%s_drifts" % fam)
         return bo
 
 
@@ -433,6 +647,214 @@ def _twin_tasks(depth, split):
     return out
 
 
+# ------------------------------------------------------------------------------------------
+# round-3 families (additional tasks; every existing task above is kept as it was)
+# ------------------------------------------------------------------------------------------
+def _P(delta, max_buckets, nst, wst, s, cons):
+    return dict(delta=delta, max_buckets=max_buckets, new_sample_thresh=nst, window_size_thresh=wst,
+                subwindow_size_thresh=s, conservative_bound=cons)
+
+
+PCFG = {
+    "hot0": params_of(HOT[0]),  # delta .002, M 5, period 4, W > 6, sub-windows >= 2
+    "hot1": params_of(HOT[1]),  # delta .3, M 2, period 1, no minimum sizes
+    "hot2": params_of(HOT[2]),  # delta 1, M 1
+    "hot3": params_of(HOT[3]),  # conservative bound, delta .3, M 1, period 2
+    "hot4": params_of(HOT[4]),  # conservative bound, delta .002, M 2, period 2
+    # legal but unusual
+    "d1e-9": _P(1e-9, 2, 1, 0, 1, False),  # delta very small
+    "d1e-9c": _P(1e-9, 2, 1, 0, 1, True),
+    "M64": _P(0.3, 64, 1, 0, 1, False),  # more buckets per row than samples: no compression ever
+    "M64c": _P(1.0, 64, 2, 3, 2, True),
+    "nstBig": _P(0.3, 2, 1000, 0, 1, False),  # check period longer than the whole history
+    "wstBig": _P(0.3, 2, 1, 1000, 1, False),  # minimum window larger than the whole history
+    "sBig": _P(0.3, 2, 1, 0, 1000, False),  # minimum sub-window larger than the window: no admissible split
+    "s0": _P(0.3, 2, 1, 0, 0, False),  # minimum sub-window 0
+    "s0c": _P(1.0, 1, 1, 0, 0, True),
+    "s5w2": _P(0.3, 2, 1, 2, 5, False),  # subwindow_size_thresh > window_size_thresh
+    "s5w2c": _P(1.0, 5, 2, 2, 5, True),
+    "default": {},  # ADWIN(): delta .002, M 5, period 32, W > 10, sub-windows >= 5
+}
+
+LONG = 192
+
+
+def _stair(alpha, n=32):
+    a = ALPHABETS[alpha]
+    return [a[0]] * n + [a[1]] * n + [a[2]] * n
+
+
+def _block(alpha, n=32):
+    a = ALPHABETS[alpha]
+    return [a[0]] * n + [a[-1]] * n + [a[0]] * n
+
+
+def _fam_cfg(fam, pname, alpha, L, feed=None):
+    cfg = {
+        "id": "%s:%s:%s%s" % (fam, pname, alpha, (":" + feed) if feed else ""),
+        "params": PCFG[pname],
+        "alphabet": alpha,
+        "fam": fam,
+    }
+    if feed:
+        cfg["feed"] = feed
+    if alpha not in ("b", "t") or feed == "f32":
+        cfg["tol"] = _tol(alpha, L, feed)
+    return cfg
+
+
+def _fam_dfs(fam, pname, alpha, depth, split, feed=None):
+    cfg = _fam_cfg(fam, pname, alpha, depth, feed)
+    out = []
+    split = min(split, depth)
+    for prefix in itertools.product(ALPHABETS[alpha], repeat=split):
+        out.append(
+            {
+                "system": "ADWIN",
+                "cfg": cfg,
+                "prefix": list(prefix),
+                "depth": depth - split,
+                "label": "ADWIN|%s|%s|d%d|%s" % (fam, cfg["id"], depth, ",".join(map(str, prefix))),
+                "cost": len(ALPHABETS[alpha]) ** (depth - split) * 2,
+            }
+        )
+    return out
+
+
+def _fam_dev(fam, pname, alpha, dname, default, k, feed=None):
+    cfg = _fam_cfg(fam, pname, alpha, len(default), feed)
+    menu = ALPHABETS[alpha]
+    n = len(default)
+    task = {
+        "system": "ADWIN",
+        "cfg": cfg,
+        "mode": "dev",
+        "default": default,
+        "menu": menu,
+        "k": k,
+        "label": "ADWIN|%s|%s|%s|L%d|k%d" % (fam, cfg["id"], dname, n, k),
+        "cost": (n * (len(menu) - 1)) ** k // (2 if k > 1 else 1) * n // 3 + n,
+        "validate_every": 97,
+    }
+    if k <= 1:
+        # one prefix-sharing task: L + (|menu|-1) * L^2 / 2 transitions instead of (|menu|-1) * L^2 for the
+        # split form, one snapshot per position; every 97th history is re-executed on a fresh detector
+        return [task]
+    return dev_split(task)
+
+
+# families whose drift counter must be positive (ADWIN uses no randomness: none of these depends on VERIF_SEED)
+FAMILIES_WITH_DRIFTS = [
+    "val-neg", "val-frac", "val-mix", "val-lvl6", "val-lvl7", "val-nlvl7",
+    "valdev-neg", "valdev-frac", "valdev-mix", "valdev-unit", "valdev-lvl6", "valdev-lvl7", "valdev-nlvl7",
+    "par-d1e-9c", "par-M64", "par-M64c", "par-s0", "par-s0c", "par-s5w2", "par-s5w2c",
+    "feed-cont", "feed-df", "feed-f32", "feed-f32after64", "feed-int", "feed-auto",
+    "long-default", "twin-par", "twin-long-default",
+]
+# families that can never cut (that is their point): only their step counter is demanded
+FAMILIES_STATS_ONLY = ["val-tiny", "valdev-tiny", "par-nstBig", "par-wstBig", "par-sBig", "twin-ycont"]
+# int8/uint8/int16/int32-typed streams: a genuine defect is expected on the pinned tree (the running sums wrap)
+FAMILIES_NARROW = ["feed-narrow"]
+
+VAL_ALPHAS = ["neg", "frac", "mix", "lvl6", "lvl7", "nlvl7", "tiny"]
+PAR_SETS = ["d1e-9", "d1e-9c", "M64", "M64c", "nstBig", "wstBig", "sBig", "s0", "s0c", "s5w2", "s5w2c"]
+XDEPTH = {
+    "quick": {"val": 8, "par_b": 11, "par_t": 8, "feed": 8, "narrow": 5, "twin": 12, "ytwin": 10},
+    "thorough": {"val": 10, "par_b": 14, "par_t": 9, "feed": 9, "narrow": 6, "twin": 15, "ytwin": 12},
+}
+
+# ADWINAccuracy: every unusual parameter forwarded
+TWIN_PARAMS_X = [PCFG[n] for n in ("d1e-9c", "M64", "M64c", "nstBig", "wstBig", "sBig", "s0", "s0c", "s5w2", "s5w2c")] + [
+    _P(1e-9, 1, 1, 0, 0, True),
+    _P(1.0, 64, 1, 1, 1, False),
+]
+
+
+def _extension_tasks(tier):
+    x = XDEPTH[tier]
+    out = []
+    # -- value families ---------------------------------------------------------------------
+    for a in VAL_ALPHAS:
+        for pn in ("hot1", "hot2", "hot3"):
+            out += _fam_dfs("val-" + a, pn, a, x["val"], 1)
+    for a in VAL_ALPHAS + ["unit"]:
+        out += _fam_dev("valdev-" + a, "hot0", a, "stair", _stair(a), 1)
+    for a in ("mix", "unit", "lvl6", "nlvl7"):
+        out += _fam_dev("valdev-" + a, "hot4", a, "stair", _stair(a), 1)
+    if tier == "thorough":
+        for a in ("mix", "lvl7"):
+            out += _fam_dev("valdev-" + a, "hot1", a, "stair", _stair(a), 2)
+    # -- unusual parameters -----------------------------------------------------------------
+    for pn in PAR_SETS:
+        out += _fam_dfs("par-" + pn, pn, "b", x["par_b"], 2)
+        out += _fam_dfs("par-" + pn, pn, "t", x["par_t"], 1)
+    for pn in ("d1e-9", "d1e-9c", "M64", "M64c", "s0", "s5w2", "s5w2c"):
+        out += _fam_dev("par-" + pn, pn, "t", "stair", _stair("t"), 1)
+    for pn in ("d1e-9c", "s0c", "M64c"):
+        out += _fam_dev("par-" + pn, pn, "b", "block", _block("b"), 1)
+    # -- containers / dtypes ----------------------------------------------------------------
+    for feed, dfs_cfgs, dev_cfgs in (
+        ("cont", [("hot1", "frac")], [("hot0", "mix")]),
+        ("df", [("hot2", "neg")], [("hot0", "frac")]),
+        ("f32", [("hot1", "t"), ("hot2", "dy")], [("hot0", "dy"), ("hot4", "t")]),
+        ("f32after64", [("hot1", "dy")], [("hot0", "dy")]),
+        ("int", [("hot1", "t"), ("hot2", "i3")], [("hot0", "ilvl7"), ("hot0", "i3")]),
+        ("auto", [("hot1", "imix")], [("hot0", "imix")]),
+    ):
+        for pn, a in dfs_cfgs:
+            out += _fam_dfs("feed-" + feed, pn, a, x["feed"], 1, feed)
+        for pn, a in dev_cfgs:
+            out += _fam_dev("feed-" + feed, pn, a, "stair", _stair(a), 1, feed)
+    for feed in ("u8", "i8", "i16"):
+        out += _fam_dfs("feed-narrow", "hot1", feed, x["narrow"], 0, feed)
+    out += _fam_dev("feed-narrow", "hot0", "ilvl7", "stair", _stair("ilvl7"), 0, "i32")
+    # -- default parameters, long histories ---------------------------------------------------
+    out += _fam_dev("long-default", "default", "t", "stair64", _stair("t", 64), 1)
+    out += _fam_dev("long-default", "default", "unit", "stair64", _stair("unit", 64), 1)
+    out += _fam_dev("long-default", "default", "b", "block64", _block("b", 64), 1)
+    # -- ADWINAccuracy twins ------------------------------------------------------------------
+    for ci, p in enumerate(TWIN_PARAMS_X):
+        for prefix in itertools.product((0, 1), repeat=2):
+            out.append(
+                {
+                    "system": "ADWINAccuracy",
+                    "cfg": {"id": "twinx%d" % ci, "params": p, "fam": "twin-par"},
+                    "prefix": list(prefix),
+                    "depth": x["twin"] - 2,
+                    "label": "ADWINAccuracy|twin-par|twinx%d|%s" % (ci, "".join(map(str, prefix))),
+                    "cost": 2 ** (x["twin"] - 2) * 2,
+                }
+            )
+    for ci in (1, 4):
+        out.append(
+            {
+                "system": "ADWINAccuracy",
+                "cfg": {"id": "twiny%d" % ci, "params": TWIN_PARAMS[ci], "fam": "twin-ycont", "yfeed": "ycont"},
+                "prefix": [],
+                "depth": x["ytwin"],
+                "label": "ADWINAccuracy|twin-ycont|twiny%d" % ci,
+                "cost": 2 ** x["ytwin"] * 2,
+            }
+        )
+    agree = [1] * 64 + [0] * 64 + [1] * 64
+    for ci, (p, yfeed) in enumerate((({}, None), ({}, "ycont"))):
+        t = {
+            "system": "ADWINAccuracy",
+            "cfg": {"id": "twinlong%d" % ci, "params": p, "fam": "twin-long-default"},
+            "mode": "dev",
+            "default": agree,
+            "menu": [0, 1],
+            "k": 1,
+            "label": "ADWINAccuracy|twin-long-default|twinlong%d|L%d|k1" % (ci, LONG),
+            "cost": LONG * LONG // 3,
+            "validate_every": 97,
+        }
+        if yfeed:
+            t["cfg"]["yfeed"] = yfeed
+        out.append(t)
+    return out
+
+
 def tasks(tier, seed):
     tier = tier if tier in DEPTH else "quick"
     d = DEPTH[tier]
@@ -458,6 +880,8 @@ def tasks(tier, seed):
             out += _nonint_tasks(idx, pname, "t", d["suffix_t"])
     # 5. ADWINAccuracy twins
     out += _twin_tasks(d["twin"], 2 if tier == "quick" else 5)
+    # 6. round-3 families
+    out += _extension_tasks(tier)
     return out
 
 
@@ -482,6 +906,8 @@ REQUIRED = [
     "acc_twin_steps",
     "acc_twin_drifts",
 ]
+REQUIRED += ["fam_%s_steps" % f for f in FAMILIES_WITH_DRIFTS + FAMILIES_STATS_ONLY + FAMILIES_NARROW]
+REQUIRED += ["fam_%s_drifts" % f for f in FAMILIES_WITH_DRIFTS]
 
 
 def describe(tier):
